@@ -23,6 +23,17 @@ with a shrunk failing input, I != S):
   8 setops: intersection loop starts at L[3:] - needs >= 3 maps where the third removes a key
   (`score <= scores[0]` -> `score < scores[0]` in addmany is an equivalent mutation: the equal-score item is
   inserted at index 0 and immediately evicted.)
+Size-gated code paths (round 3): seeded C17_E (probe instead of merge for a 3rd+ operand > 32 x the running result,
+dropping docids whose score there is 0.0) and C17_F (addmany pre-selects with a sort when given > 128 pairs as a
+list / tuple, later items win ties) were missed before and are caught now (quick seeds 0-3): `bigsmall` cases put
+1-3 maps of 1-8 keys next to 1-2 maps of 300-3000 keys (Buckets, BTrees, mixed; all orders of 3 operands; scores
+exactly 0.0 and negative at the surviving docids), `bulk` NBest sessions feed addmany 129-1000 pairs as list,
+tuple, iterator and generator with 1-9 (40) distinct scores, ascending / descending / random arrival, capacities
+1-200, repeated items.  Two more of the class, both VIOLATION on quick seed 0:
+  9  mass_weightedUnion copies one operand > 32 x the others and adds the rest by lookup, forgetting the weight for
+     docids the big operand lacks - needs a tiny operand with weight != 1 and a docid outside the big one
+  10 addmany de-duplicates a list / tuple of > 128 pairs through dict(sequence) - needs an item twice in a big batch
+  Replays of big cases are shrunk by halving chunks of entries (the seed replays end at 33 entries vs 1, 129 pairs).
   `bisect <x> <scores>` compares the model's binary search (`NBest.bisectLeft`, theorem `c17_bisect_left`) with
   CPython's `bisect.bisect_left` (a trusted-base definition checked on every run); mutation 4 re-run after the
   addition: still caught.
@@ -245,7 +256,8 @@ def gen_bigsmall(rng, tier):
     for j in range(ntiny):
         ks = set(core if rng.random() < 0.8 else core[1:])
         for _ in range(rng.randrange(0, 6)):
-            ks.add(rng.choice(anchor) if rng.random() < 0.6 else rng.choice(universe) + rng.choice([0, 5000]))
+            k = rng.choice(anchor) if rng.random() < 0.6 else rng.choice(universe)
+            ks.add(k + 5000 if rng.random() < 0.3 and abs(k) < 2 ** 30 else k)    # stays a 32-bit docid
         maps.append((gen_weight(rng, "dyadic"), [(k, gen_score(rng, "dyadic", signed=rng.random() < 0.6))
                                                  for k in sorted(ks)]))
     rng.shuffle(maps)
@@ -529,6 +541,8 @@ def features(case, outs):
     if case["session"] == "setops":
         cfg = cfgdict(case)
         f += ["fam:%s" % cfg["fam"], "kind:" + cfg["kind"], "stream:" + cfg["stream"]]
+        if cfg.get("shape") == "bigsmall":
+            f.append("case:bigsmall")
         for c, o in zip(case["cmds"], outs):
             ops = split_ops(c[1:])
             real = [(w, m) for w, m in ops if m is not None]
@@ -593,6 +607,8 @@ def features(case, outs):
         return f
     cap = None
     held = 0
+    if cfgdict(case).get("mode") == "bulk":
+        f.append("case:nbest-bulk")
     for c, o in zip(case["cmds"], outs):
         f.append("nb:" + c[0])
         if o.startswith("err"):
@@ -699,7 +715,19 @@ RULE = ("60% set-algebra cases: 1-3 operand lists of 0-6 IF maps (0-18 keys from
         "operands in 30% of the lists), buckets / BTrees / mixed, family32 and family64, 70% dyadic scores "
         "compared exactly and 30% arbitrary float32 scores compared with rel. tol. 2e-6; 40% NBest sessions: "
         "capacity 1-8 (and N<1), 3-30 (thorough 80) add/addmany/pop_smallest/getbest/len calls with scores "
-        "from a pool of 1-9 values (heavy ties), scores as ints or as k/8 floats. non-trivial = an operand "
+        "from a pool of 1-9 values (heavy ties), scores as ints or as k/8 floats, addmany given a list / tuple / "
+        "iterator / generator. 7% of the set-algebra cases are `bigsmall`: 1-3 maps of 1-8 keys and 1-2 maps of "
+        "300-1500 (12%: 3000; thorough also 2000) keys sharing a core of 1-8 docids, dyadic scores with exactly 0.0 "
+        "and negative values (45% of the core entries of a big map), every order of 3 operands (4-5 random orders "
+        "of more), a None operand added in 30%; a third of the ordinary dyadic cases also draw 0.0 / negative "
+        "scores. 8% of all cases are `bulk` NBest sessions: capacity 1-200, 2-6 steps of addmany with 129-400 "
+        "(thorough to 1000) pairs - ascending, descending or random arrival, 1-40 distinct scores, a quarter with "
+        "repeated items - mixed with short batches, add, pop_smallest, len, getbest after every step. Measured "
+        "quick seed 0 (3008 cases): bigsmall 138 cases, an intersection operand > 32 x the running result 600 "
+        "commands (union 237), holding 0.0 at a surviving docid 362, a negative score there 324, that operand a "
+        "Bucket 238 / BTree 137 / mixed case 225, operands >= 300 keys 856 commands (>= 2000: 54); bulk 246 cases, "
+        "batches > 128 pairs 494 (list 118, tuple 138, iterator 114, generator 124), a tie straddling the cut in "
+        "446 of them, batches repeating an item 148. non-trivial = an operand "
         "list of >= 2 maps sharing a key with a non-empty result / two different getbest answers with >= 2 "
         "entries")
 LEVEL_TEXT = ("Lean 4 theorems over the reals for every list of (map, weight) pairs: the modelled "
